@@ -695,6 +695,8 @@ SU_vector& SU_vector::operator=(const SU_vector& other){
       dim=0;
       size=0;
     }
+    if(other.size==0) //an empty vector has no components to copy or to store
+      return *this;
     alloc_aligned(other.dim,other.size,components,ptr_offset);
     dim=other.dim;
     size=other.size;
